@@ -79,3 +79,4 @@ package db
 //@   ensures result1 == nil ==> ret0(getVersion) <= version && ret1(getVersion) == nil
 //@   ensures result1 == nil ==> len(ret0(List)[0]) == len(key) + 31
 //@   ensures result1 == nil ==> result0 == ret0(List)[1]
+//@   ensures called(getVersion) && ret1(getVersion) == nil && ret0(getVersion) <= version ==> result1 == nil
